@@ -40,7 +40,7 @@ def make_comment(rng, kind):
         # tabs and the glyphs below 0x20 are comment text like any other (a tab after the dashes, columns aligned with tabs)
         for _ in range(rng.randint(1, 3)):
             pos = rng.randrange(len(txt) + 1)
-            txt[pos:pos] = rng.choice((b'\t', b'\t', b'\t\t', bytes([rng.choice(range(14, 32))]), b'\x7f', b' \t '))
+            txt[pos:pos] = rng.choice((b'\t', b'\t', b'\t\t', bytes([rng.choice(range(14, 32))]), b'\x7f', b' \t ', b'\x0b', b'\x0c', b'  ', b'   '))
         if txt[:1] == b'[':
             txt[0:0] = b' '
     txt = bytes(txt)
